@@ -28,6 +28,7 @@ def run(ck):
     wr = ck.anchor("UnifiedPatchRejWriter>::write_rej_to")
     if None in (rej, seq, apply_worker, wr):
         return
+    r8_reject_removed_only_to_be_rewritten(ck, rej)
     # ---- R1 ------------------------------------------------------------------------------------------
     creates = [(bb, t) for bb, t, c in calls_named(rej, "std::fs::File::create", "std::fs::File::create_new", "std::fs::OpenOptions::open", "std::fs::write")]
     ck.floor("C13-R1", "reject file creation sites", len(creates), 1)
@@ -290,6 +291,44 @@ def run(ck):
                     if (c.get("rpath") or "").endswith("write_file_patch_header_to") or (c.get("rpath") or "").endswith("UnifiedPatchHunkWriter>::write_to")}
         ck.require(writers(wr) == writers(full) and len(writers(wr)) == 2, "C13-R5", "reject uses the patch writer's header and hunk writers",
                    "write_rej_to uses %s, write_to uses %s" % (sorted(writers(wr)), sorted(writers(full))), wr.where())
+
+
+def r8_reject_removed_only_to_be_rewritten(ck, rej, rule="C13-R8"):
+    """A `.rej` next to a file belongs to the file, and one patch can have several sections for one file.  So within a push a reject path
+    is removed only on the way to creating it anew (replacing a stale one): from every removal of a reject path, every path that
+    neither fails nor creates that reject must not get back to the loop head or to the end of the function - otherwise the removal can
+    hit the reject an earlier iteration has just written for another section of the same file."""
+    prog = ck.prog
+    fns = [rej] + prog.closures_of(rej)
+    n = 0
+    for fn in fns:
+        is_rej_path = lambda e: df.mentions(e, lambda x: df.is_call(x, "make_rej_filename"))
+        removes = [(bb, t) for bb, t in fn.calls() if (callee_of(t).get("rpath") or "") in ("std::fs::remove_file", "std::fs::rename") and
+                   not fn.blocks[bb]["cleanup"] and t["args"] and is_rej_path(df.operand_expr(fn, t["args"][0]))]
+        creates = {bb for bb, t in fn.calls() if (callee_of(t).get("rpath") or "").split("::")[-1] in ("create", "create_new", "open", "write") and
+                   "std::fs::" in (callee_of(t).get("rpath") or "") and t["args"] and is_rej_path(df.operand_expr(fn, t["args"][-1]))}
+        err_bbs = set()
+        for bb, idx, st in fn.stmts():
+            if st["k"] == "assign" and st["lhs"]["l"] == 0 and not st["lhs"].get("p") and st["rv"]["k"] == "agg" and st["rv"].get("variant") == "Err":
+                err_bbs.add(bb)
+        for bb, t in fn.calls():
+            if (callee_of(t).get("path") or "").endswith("from_residual") and t["dest"]["l"] == 0:
+                err_bbs.add(bb)
+        for bb, t in removes:
+            n += 1
+            loop = cfg.innermost_loop_of(fn, bb)
+            # value-sensitive for `?`: an `Err(..)` a helper returned (folded into this function) leaves at the `?` that follows
+            from .. import pathconst
+            r = pathconst.reach_under(fn, lambda e_: None, None, blocked=creates | err_bbs, valuation=lambda e_: None, prog=prog,
+                                      start=[sx for sx in fn.succs(bb) if not fn.blocks[sx]["cleanup"] and sx not in creates and sx not in err_bbs])
+            back = loop is not None and loop[0] in r
+            out = [b_ for b_ in r if fn.blocks[b_]["term"]["k"] == "return"]
+            ck.require(not back and not out, rule, "a reject is removed only on the way to writing it anew (%s)" % fn.id.split("::")[-1],
+                       "after removing a reject path the function can go on to %s without creating that reject: when the rejected patch has "
+                       "several sections for one file, this deletes the reject an earlier iteration has just written" % (
+                           "the next iteration" if back else "its end"), fn.where(t),
+                       ok_detail="every path from the removal creates the reject or returns an error")
+    ck.floor(rule, "removals of a reject path", n, 1)
 
 
 def filter_lets_only_failed(pf):
